@@ -137,6 +137,18 @@ func withGrown(shapes []histmodel.Shape) []histmodel.Shape {
 		map[int32]float64{6: 1}, map[int32]float64{0: 1}, 55))
 }
 
+// Shifted is "e03s-s0-shifted": the same schema, zero threshold and COUNT as e03-s0-grown
+// ({1:2 2:3 3:1}) with one observation moved from bucket 1 to bucket 3 ({1:1 2:3 3:2}): after e03
+// it is a counter reset that only a per-bucket comparison can see (no shape pair of the core set
+// has a decreasing bucket without a decreasing total count).
+func Shifted(shapes []histmodel.Shape) histmodel.Shape {
+	m := find(shapes, "e03-s0-grown").Model.Copy()
+	m.Pos[1]--
+	m.Pos[3]++
+	m.Sum = 21
+	return histmodel.Shape{Name: "e03s-s0-shifted/L0", Model: m, Float: m.ToFloat(0), Int: m.ToInt(0), Exact: true}
+}
+
 // FullShapes is the core histmodel set plus (a) gauge variants that share schema and zero
 // threshold (so that gauge chunks are recoded both ways instead of being cut) and (b) padded and
 // grown variants of shapes with negative buckets (the core set's round-robin layouts never put a
@@ -150,7 +162,8 @@ func FullShapes() []histmodel.Shape {
 		Derive(shapes, "e06-s0-both-sides", 1, false),
 		Derive(shapes, "e07-s0-neg-only", 1, false),
 		Derive(shapes, "e06-s0-both-sides", 3, true),
-		Derive(shapes, "e06p-s0-both-sides-grown", 1, true))
+		Derive(shapes, "e06p-s0-both-sides-grown", 1, true),
+		Shifted(shapes))
 }
 
 // SmallShapes is the 14-shape alphabet for the deeper bound: shapes that collide with each other
